@@ -73,6 +73,7 @@ FullOps ==
   \cup {Op("setprop", t, 6, x) : t \in Targets, x \in {"wrongname", "wrongtype"}}
   \cup {Op("terminate_other", t, 3, "") : t \in Targets}
   \cup {Op("flood_calls", "p1", 25, "A"), Op("flood_auth", "dir", 8, "")}
+  \cup {Op("auth_wrongtype", "dir", 8, x) : x \in {"user", "token", "both", "extra"}}
   \cup {Op("disconnect", "dir", 0, x) : x \in {"header", "payload"}}
 (* one representative per class *)
 SmallOps ==
@@ -84,6 +85,7 @@ SmallOps ==
         Op("garbage", "dir", 101, "garbage"), Op("garbage", "p2", 100, "count")}
   \cup {Op("setprop", "p1", 6, "wrongtype"), Op("terminate_other", "p2", 3, "")}
   \cup {Op("flood_calls", "p1", 25, "A"), Op("flood_auth", "dir", 8, "")}
+  \cup {Op("auth_wrongtype", "dir", 8, x) : x \in {"user", "token"}}
   \cup {Op("disconnect", "dir", 0, x) : x \in {"header", "payload"}}
 (* saturation.  a = number of requests: above the capacities on the path (handler queue 10 + 1 in the consumer's hand
    + mailbox 10 + 1 in the method) for calls, which are refused when the queue is full; a few hundred for posts, which
@@ -163,6 +165,9 @@ Send(op) ==
                 ELSE CASE op.k = "reg" -> IF dup THEN "error" ELSE "reply"
                        [] op.k = "unreg" -> IF op.x = "mine" /\ mine[op.t] THEN "reply" ELSE "error"
                        [] op.k \in {"reg_wrongobj", "unknown_action", "setprop", "terminate_other"} -> "error"
+                       [] op.k = "auth_wrongtype" -> "any"   \* authenticate (service 0) again, with a capability map that
+                                                             \* decodes but holds a credential of another type than string:
+                                                             \* refused by a reply (error state) or an error, never a crash
                        [] op.k = "garbage" -> "any"     \* an error for undecodable arguments, a reply when the
                                                         \* action takes none or the bytes happen to decode
                        [] op.k \in {"flood_calls", "flood_auth", "disconnect"} -> "none"
